@@ -101,7 +101,8 @@ def prepare(case):
             st, sc = o["site"], o["schema"]
             if st.get("kind") not in ("named", "prop", "items") or not all(st.get(k) for k in (("name",) if st["kind"] == "named" else ("holder", "prop"))):
                 raise ValueError("ill-formed site")
-            if not (isinstance(sc, dict) and (len(sc.get("enum") or []) >= 2 or sc.get("properties") or len(sc.get("oneOf") or sc.get("anyOf") or []) >= 2)):
+            # (a type-less schema that carries only a `title`: what pydantic writes for an `Any` field)
+            if not (isinstance(sc, dict) and (len(sc.get("enum") or []) >= 2 or sc.get("properties") or len(sc.get("oneOf") or sc.get("anyOf") or []) >= 2 or (set(sc) <= {"title", "description"} and sc.get("title")))):
                 raise ValueError("schema outside the feature grammar")
         pool = i.get("pool") or "abc"
         if pool not in SHARE_POOLS:
@@ -118,6 +119,20 @@ def prepare(case):
         specs = {"combined": multi_resp_spec(ops), "alone": [multi_resp_spec([o]) for o in ops]}
         return {"op": case["op"], "in": {"ops": ops, "opreqs": [o["opid"].capitalize() + "Request" for o in ops], "specs": specs}}
     return case
+
+
+def title_cases(ctx):
+    """type-less schemas that carry only a `title` (pydantic's `Any` fields) next to components of that name / of another name,
+    as member and as array items, and as the `extra` unrelated schema added to a document"""
+    obj = {"type": "object", "required": ["id"], "properties": {"id": {"type": "integer"}}}
+    en = {"type": "string", "enum": ["a", "b"]}
+    out = []
+    for comp in (obj, en):
+        for title in ("Na", "na", "Other", "N a"):
+            for tag in ("H1.p", "H1.r", "H2.q"):
+                out.append(mk_share([comp, {"title": title}], ["Na", tag]))
+                out.append({"op": "share.sites", "in": {"occs": [{"site": site_of(tag), "schema": {"title": title}}, {"site": site_of("H2.p"), "schema": en}], "extra": {"name": "Na", "schema": comp, "value": None}}})
+    return out
 
 
 # ---------------- generators ----------------
@@ -441,7 +456,7 @@ def run(ctx):
             ctx.leanchecker("Oas3Model.Props.C13")
     ctx.prepare = prepare
     if driver_ok and ctx.build_harness(["k_cache"]):
-        allc = vlib_corpus(ctx) + kernel_cases(ctx) + share_cases(ctx) + resp_cases(ctx) + same_member_cases(ctx) + disc_cases(ctx)
+        allc = vlib_corpus(ctx) + kernel_cases(ctx) + share_cases(ctx) + resp_cases(ctx) + same_member_cases(ctx) + disc_cases(ctx) + title_cases(ctx)
         B = 400
         for i in range(0, len(allc), B):
             ctx.classify(ctx.evaluate(allc[i:i + B]), tie="K+E")
